@@ -1,74 +1,157 @@
 (* Driver of the extracted model of disjoint.Set: reads the case file of harness/cmd/c18 on
-   stdin and prints one observation per line in the format of that command. *)
+   stdin and prints one observation per line in the format of that command.
+
+   Case syntax (shared with harness/cmd/c18/main.go):
+     <n>[:s][:c<cap>];tok tok ...
+   header flag s = sparse (the partition is observed only at `o` tokens and at the end; without
+   it the partition is observed after every token), c<cap> = capacity of the scratch buffer of
+   the buffered calls (irrelevant to the model).  Tokens:
+     f<x> F<x>        Find / FindBuffered
+     u<x>,<y> U<x>,<y> Union / UnionBuffered
+     q<x>,<y> Q<x>,<y> "same set?" = Find(x) == Find(y) (second lookup on the array as
+                      compressed by the first), item q0|q1
+     o                item = the partition (least member of every element's class)
+     v                Sets(), SmallestRep(), Roots() on the set itself, in this order (the
+                      compressed array is kept), item v<sets>~<sr>~<roots>
+   Peano indices: every model find costs at least length ds steps, so a partition snapshot is
+   O(n^2) and the quadratic views are O(n^3) in the worst case; the final views are taken from
+   the model's [sets]/[smallest_rep] when an estimate of that cost (from the final partition) is
+   within [view_budget], otherwise they are derived from the partition, which is what
+   C18_sets / C18_smallest_rep / C18_roots prove the model's views to be. *)
 open Model
 open Conv_nat
 open Conv_z
 
 let ints l = String.concat "," (List.map string_of_int l)
 
-let parse_op (t : string) : op =
-  let k = t.[0] in
-  let nums = List.map int_of_string (String.split_on_char ',' (String.sub t 1 (String.length t - 1))) in
-  match k, nums with
-  | 'f', [x] -> OFind (nat_of_int x)
-  | 'F', [x] -> OFindB (nat_of_int x)
-  | 'u', [x; y] -> OUnion (nat_of_int x, nat_of_int y)
-  | 'U', [x; y] -> OUnionB (nat_of_int x, nat_of_int y)
-  | _ -> failwith ("bad op " ^ t)
+type tok =
+  | TFind of nat | TFindB of nat
+  | TUnion of nat * nat | TUnionB of nat * nat
+  | TQuery of nat * nat | TQueryB of nat * nat
+  | TObs | TViews
 
-(* the least member of every class, from the roots found on the unmodified array *)
-let labels (ds : dset) : int list option =
+let parse_tok (t : string) : tok =
+  let k = t.[0] in
+  let rest = String.sub t 1 (String.length t - 1) in
+  let nums = if rest = "" then [] else List.map int_of_string (String.split_on_char ',' rest) in
+  match k, nums with
+  | 'f', [x] -> TFind (nat_of_int x)
+  | 'F', [x] -> TFindB (nat_of_int x)
+  | 'u', [x; y] -> TUnion (nat_of_int x, nat_of_int y)
+  | 'U', [x; y] -> TUnionB (nat_of_int x, nat_of_int y)
+  | 'q', [x; y] -> TQuery (nat_of_int x, nat_of_int y)
+  | 'Q', [x; y] -> TQueryB (nat_of_int x, nat_of_int y)
+  | 'o', [] -> TObs
+  | 'v', [] -> TViews
+  | _ -> failwith ("bad token " ^ t)
+
+(* The least member of every class.  The finds are threaded (each runs on the array as
+   compressed by the previous ones, on a functional copy: the caller's array is untouched), as
+   the harness does on its copy; by C18_find_noop that does not change the partition, and it
+   keeps a snapshot of a deep tree quadratic instead of cubic. *)
+let labels (ds : dset) : int array option =
   let n = List.length ds in
-  let tbl = Hashtbl.create 16 in
-  let rec go i acc =
-    if i = n then Some (List.rev acc)
-    else match find ds (nat_of_int i) with
+  let lab = Array.make n 0 in
+  let tbl = Hashtbl.create 64 in
+  let rec go i ni d =
+    if i = n then Some lab
+    else match find d ni with
       | None -> None
-      | Some (_, r) ->
+      | Some (d', r) ->
         let r = int_of_nat r in
-        let l = match Hashtbl.find_opt tbl r with Some m -> m | None -> Hashtbl.add tbl r i; i in
-        go (i + 1) (l :: acc)
-  in go 0 []
+        (match Hashtbl.find_opt tbl r with
+         | Some m -> lab.(i) <- m
+         | None -> Hashtbl.add tbl r i; lab.(i) <- i);
+        go (i + 1) (S ni) d'
+  in go 0 O ds
+
+let sets_str (ss : int list list) = String.concat "/" (List.map (fun s -> String.concat "." (List.map string_of_int s)) ss)
+
+(* the three views as determined by a partition given by its least-member labels *)
+let views_of_labels (lab : int array) : int list list * int list * int list =
+  let n = Array.length lab in
+  let members = Array.make n [] in
+  for i = n - 1 downto 0 do members.(lab.(i)) <- i :: members.(lab.(i)) done;
+  let mins = List.filter (fun i -> lab.(i) = i) (List.init n (fun i -> i)) in
+  (List.map (fun m -> members.(m)) mins, Array.to_list lab, mins)
+
+let view_budget = 16_000_000
+
+(* estimate of the model steps of [sets] and [smallest_rep] on a set with this partition:
+   (number of finds) * n; the harness computes the same number for its histogram *)
+let views_cost (lab : int array) : int =
+  let n = Array.length lab in
+  let idx = Array.make n 0 in
+  let k = ref 0 in
+  let c = ref 0 in
+  for i = 0 to n - 1 do
+    if lab.(i) = i then begin idx.(i) <- !k; incr k; c := !c + 2 * !k + 2 * i end
+    else c := !c + 2 * (idx.(lab.(i)) + 1) + 2 * (lab.(i) + 1)
+  done;
+  !c * n
+
+let roots_labels (lab : int array) (ds : dset) : int list =
+  List.sort compare (List.map (fun r -> lab.(int_of_nat r)) (roots ds))
+
+let model_views (ds : dset) : (dset * int list list * int list) option =
+  match sets ds with
+  | None -> None
+  | Some (d1, ss) ->
+    match smallest_rep d1 with
+    | None -> None
+    | Some (d2, sr) -> Some (d2, List.map (List.map int_of_nat) ss, List.map int_of_nat sr)
+
+exception Panic
 
 let () =
   try
     while true do
       let line = input_line stdin in
       let i = String.index line ';' in
-      let n = int_of_string (String.sub line 0 i) in
-      let ops = List.map parse_op
+      let hd = String.split_on_char ':' (String.sub line 0 i) in
+      let n = int_of_string (List.hd hd) in
+      let sparse = List.mem "s" (List.tl hd) in
+      let toks = List.map parse_tok
           (List.filter (fun s -> s <> "") (String.split_on_char ' ' (String.sub line (i + 1) (String.length line - i - 1)))) in
       let buf = Buffer.create 256 in
       let strict = Buffer.create 64 in
-      let failed = ref false in
+      let first = ref true in
+      let item s = if !first then first := false else Buffer.add_char buf '|'; Buffer.add_string buf s in
       let ds = ref (new0 (nat_of_int n)) in
-      List.iteri (fun k o ->
-          if not !failed then begin
-            (match o with
-             | OFind x | OFindB x ->
-               (match find !ds x with
-                | Some (d, r) -> ds := d; Buffer.add_string strict (string_of_int (int_of_nat r) ^ " ")
-                | None -> failed := true)
-             | OUnion (x, y) | OUnionB (x, y) ->
-               (match union !ds x y with Some d -> ds := d | None -> failed := true));
-            if not !failed then begin
-              if k > 0 then Buffer.add_char buf '|';
-              match labels !ds with
-              | Some l -> Buffer.add_string buf (ints l)
-              | None -> failed := true
-            end
-          end) ops;
-      if !failed then print_endline "panic"
-      else begin
-        match labels !ds, sets !ds, smallest_rep !ds with
-        | Some lab, Some (_, ss), Some (_, sr) ->
-          let ss = List.map (fun s -> String.concat "." (List.map (fun x -> string_of_int (int_of_nat x)) s)) ss in
-          let laba = Array.of_list lab in
-          let rl = List.sort compare (List.map (fun r -> laba.(int_of_nat r)) (roots !ds)) in
-          Printf.printf "%s;sets=%s;sr=%s;roots=%s ## %s finds=%s\n" (Buffer.contents buf)
-            (String.concat "/" ss) (ints (List.map int_of_nat sr)) (ints rl)
-            (ints (List.map int_of_z !ds)) (String.trim (Buffer.contents strict))
-        | _ -> print_endline "panic"
-      end
+      let ex = function Some x -> x | None -> raise Panic in
+      let snapshot () = item (ints (Array.to_list (ex (labels !ds)))) in
+      try
+        List.iter (fun t ->
+            (match t with
+             | TFind x | TFindB x ->
+               let (d, r) = ex (find !ds x) in
+               ds := d; Buffer.add_string strict (string_of_int (int_of_nat r) ^ " ")
+             | TUnion (x, y) | TUnionB (x, y) -> ds := ex (union !ds x y)
+             | TQuery (x, y) | TQueryB (x, y) ->
+               let (d1, rx) = ex (find !ds x) in
+               let (d2, ry) = ex (find d1 y) in
+               ds := d2; item (if int_of_nat rx = int_of_nat ry then "q1" else "q0")
+             | TObs -> snapshot ()
+             | TViews ->
+               let (d2, ss, sr) = ex (model_views !ds) in
+               ds := d2;
+               let lab = ex (labels d2) in
+               item ("v" ^ sets_str ss ^ "~" ^ ints sr ^ "~" ^ ints (roots_labels lab d2)));
+            if not sparse && t <> TObs then snapshot ()) toks;
+        let lab = ex (labels !ds) in
+        let (ss, sr, rl) =
+          if views_cost lab <= view_budget then begin
+            (* each view on its own copy of the final array, as the harness does *)
+            let (_, ss) = ex (sets !ds) in
+            let (_, sr) = ex (smallest_rep !ds) in
+            (List.map (List.map int_of_nat) ss, List.map int_of_nat sr, roots_labels lab !ds)
+          end else begin
+            let (ss, sr, _) = views_of_labels lab in
+            (ss, sr, roots_labels lab !ds)
+          end in
+        Printf.printf "%s;sets=%s;sr=%s;roots=%s ## %s finds=%s\n" (Buffer.contents buf)
+          (sets_str ss) (ints sr) (ints rl)
+          (ints (List.map int_of_z !ds)) (String.trim (Buffer.contents strict))
+      with Panic -> print_endline "panic"
     done
   with End_of_file -> ()
